@@ -9,6 +9,7 @@ import DlmsVerif.Run.Link
 import DlmsVerif.Run.Addr
 import DlmsVerif.Run.Hdlc
 import DlmsVerif.Run.Rx
+import DlmsVerif.Run.Time
 
 structure DriverState where
   link : Run.Link.S := {}
@@ -18,6 +19,7 @@ def step (st : DriverState) (line : String) : DriverState × String :=
   match (line.trimAscii.toString.splitOn " ").filter (· ≠ "") with
   | "crc" :: rest => (st, Run.Crc.handle rest)
   | "fld" :: rest => (st, Run.Fields.handle rest)
+  | "time" :: rest => (st, Run.Time.handle rest)
   | "hdlc" :: rest => (st, Run.Hdlc.handle rest)
   | "addr" :: rest => (st, Run.Addr.handle rest)
   | "rx" :: rest => let (l, r) := Run.Rx.handle st.rx rest; ({ st with rx := l }, r)
